@@ -3,7 +3,8 @@
 //	(1) pure codecs through the verif wrappers in nsqd/verif_c07.go: Message.WriteTo,
 //	    decodeMessage, writeMessageToBackend+decodeMessage, SendFramedResponse, readMPUB;
 //	(2) HTTP /pub, text /mpub, binary /mpub against live in-process daemons (default
-//	    limits and tiny limits), observed by consuming the topic's channel;
+//	    limits and tiny limits), observed by consuming the topic's channel; the boundary
+//	    matrix of httpedge.go (limits x front door x Content-Length/chunked x shape);
 //	(3) live paths: TCP PUB/MPUB/DPUB and HTTP publishes, several channels, memory and
 //	    disk queues, requeue, restart on the same data path, consumed over raw TCP with a
 //	    negotiated {plain,TLS} x {none,snappy,deflate 1..9} x output buffer size x timeout.
@@ -36,6 +37,11 @@ type caseIn struct {
 	Small   bool   `json:"small,omitempty"`
 	Chunked bool   `json:"chunked,omitempty"`
 	HKind   int    `json:"hkind,omitempty"`
+	MemQ    int64  `json:"memq,omitempty"` // explicit HTTP witnesses: > 0 = the small daemon with a memory queue
+	// httpedge: one cell of the boundary matrix: daemon (limits, memory queue) x front door
+	// (HKind) x Chunked x Shape (which boundary, see edgeBody)
+	HCfg  string `json:"hcfg,omitempty"`
+	Shape int    `json:"shape,omitempty"`
 	// explicit pure witnesses (corpus): round / dec use TS, Att, IDB64, BodyB64; mpub uses
 	// BodyB64 as the input with MaxMsg, MaxBody and Intent (0 invalid, 1 valid, 2 unknown)
 	Explicit bool   `json:"explicit,omitempty"`
@@ -539,7 +545,7 @@ var liveFailures = 0
 const maxLiveFailures = 2
 
 func run(in caseIn, name string) {
-	if liveFailures >= maxLiveFailures && (in.Kind == "http" || in.Kind == "live" || in.Kind == "livebig" || in.Kind == "livetmo" || in.Kind == "liveconc" || in.Kind == "livegate") {
+	if liveFailures >= maxLiveFailures && (in.Kind == "http" || in.Kind == "httpedge" || in.Kind == "live" || in.Kind == "livebig" || in.Kind == "livetmo" || in.Kind == "liveconc" || in.Kind == "livegate") {
 		skipped++
 		return
 	}
@@ -558,6 +564,8 @@ func run(in caseIn, name string) {
 		pureMpub(in, name)
 	case "http":
 		httpCase(in, name)
+	case "httpedge":
+		edgeCase(in, name)
 	case "live", "livetmo":
 		liveCase(in, name, false)
 	case "livebig":
@@ -578,6 +586,7 @@ func main() {
 	nbig := flag.Int("livebig", 3, "number of large-body live path cases")
 	nconc := flag.Int("liveconc", 4, "number of concurrent-delivery cases (slow consumers holding a frame part-way)")
 	ngate := flag.Int("livegate", 4, "number of cases holding a queue write part-way (verif gate in front of a topic's / channel's backend)")
+	nedge := flag.Int("httpedge", 1, "HTTP boundary matrix: 0 = off, 1 = every cell of the small and middle daemons + /pub around 4 KiB, 2 = also every cell of the 4 KiB daemon")
 	ntmo := flag.Int("livetmo", 2, "number of live path cases whose first requeue is the in-flight timeout")
 	big := flag.Int("big", 10, "number of large-body pure cases allowed")
 	seed := flag.Uint64("seed", 1, "seed")
@@ -611,6 +620,10 @@ func main() {
 		}
 		return
 	}
+
+	// the HTTP boundary matrix first: its shapes are fixed, only contents and chunk sizes
+	// depend on the seed (a generator of its own, the other families keep their seeds)
+	runEdgeMatrix(*nedge, lib.NewRand(*seed^0x68747470))
 
 	// the families are interleaved so that the judge's shards (cut in emission order) carry
 	// similar amounts of large terms
